@@ -1291,6 +1291,9 @@ Proof.
     intros Hsr; eapply ShStore; [reflexivity|exact Hsr| |].
     + intros Hwf. rewrite Hr. apply NoDup_filter. eapply Hwf. exact Em.
     + intros a Ha. left. exists s, m. split; [exact Em|]. rewrite Hr in Ha. apply filter_In in Ha. tauto.
+  - (* GroupLookup *)
+    destruct (slot_get s (st_pool st)) as [m|]; [|same]. destruct (all_some _ m); [|same].
+    destruct (assoc kv _); [same|]. destruct rt; same.
   - (* Get *)
     destruct (slot_get s (st_pool st)) as [m|] eqn:Em; [|same].
     destruct (negb ((mode =? 0) || (mode =? 1))); [same|].
@@ -2439,3 +2442,92 @@ Lemma group_map_values t rt gm g :
      r = flat_map (fun e => fst e :: match gm_apply t rt gm (snd e) with Some vs => vs | None => [] end) g) /\
   (group_map t rt gm g = None <-> exists e, In e g /\ gm_apply t rt gm (snd e) = None).
 Proof. split; [apply group_map_some|apply group_map_none]. Qed.
+
+(* --- gb.groups[kv]: a present key gives its group on both result types; an ABSENT key is a KeyError on
+   "agentset" but silently an empty group on "list" (GroupBy keeps the defaultdict) --- *)
+Lemma step_group_lookup st s k kv rt m ks :
+  members st s = Some m -> all_some (eval_key (st_tbl st) k) m = Some ks ->
+  let kf := key_or0 (st_tbl st) k in
+  (In kv (map kf m) ->
+     step st (GroupLookup s k kv rt) =
+     (st, ROk (zlen (filter (fun a => kf a =? kv) m) :: filter (fun a => kf a =? kv) m))) /\
+  (~ In kv (map kf m) ->
+     step st (GroupLookup s k kv rt) = if rt then (st, RErr E_KEY) else (st, ROk [0])).
+Proof.
+  intros Hm Hk kf. unfold members in Hm. unfold step. cbv zeta. rewrite Hm, Hk. fold kf.
+  destruct (groupby_spec kf m) as [_ [_ [Hg [Hn _]]]].
+  destruct (assoc kv (groupby_members kf m)) as [r|] eqn:E.
+  - split.
+    + intros _. apply assoc_In in E. destruct (Hg _ _ E) as [-> _]. reflexivity.
+    + intros Hnot. apply Hn in Hnot. congruence.
+  - split.
+    + intros Hin. apply Hn in E. contradiction.
+    + intros _. destruct rt; reflexivity.
+Qed.
+
+(* --- string keys: the code of a string orders like the string --- *)
+Definition str_ok (L : nat) (l : list Z) : Prop := (length l <= L)%nat /\ Forall (fun c => 1 <= c < 128) l.
+
+Lemma pw_pos L : 0 < pw L.
+Proof. induction L as [|L IH]; cbn [pw]; lia. Qed.
+
+Lemma enc_str_bound L : forall l, Forall (fun c => 1 <= c < 128) l -> 0 <= enc_str L l < pw L.
+Proof.
+  induction L as [|L IH]; intros l H; cbn [enc_str]; cbn [pw]; [lia|].
+  destruct l as [|c t]; [pose proof (pw_pos L); lia|].
+  inversion H as [|? ? Hc Ht]; subst. pose proof (IH t Ht). pose proof (pw_pos L). nia.
+Qed.
+
+Lemma enc_str_lex L : forall a b, str_ok L a -> str_ok L b ->
+  (lex_leb a b = true <-> enc_str L a <= enc_str L b).
+Proof.
+  induction L as [|L IH]; intros a b [Hla Hca] [Hlb Hcb].
+  - destruct a; [|simpl in Hla; lia]. simpl. split; [lia|reflexivity].
+  - destruct a as [|c t]; cbn [lex_leb]; cbn [enc_str].
+    + split; [|reflexivity]. intros _. destruct b as [|d u]; [lia|].
+      inversion Hcb as [|? ? Hd Hu]; subst. pose proof (enc_str_bound L u Hu). pose proof (pw_pos L). nia.
+    + inversion Hca as [|? ? Hc Ht]; subst. pose proof (enc_str_bound L t Ht) as Bt. pose proof (pw_pos L) as Hp.
+      destruct b as [|d u].
+      * split; [discriminate|]. intros H. exfalso. nia.
+      * inversion Hcb as [|? ? Hd Hu]; subst. pose proof (enc_str_bound L u Hu) as Bu.
+        assert (str_ok L t) as Ot by (split; [simpl in Hla; lia|exact Ht]).
+        assert (str_ok L u) as Ou by (split; [simpl in Hlb; lia|exact Hu]).
+        specialize (IH t u Ot Ou). unfold lex_leb_step.
+        destruct (c <? d) eqn:E1; simpl orb.
+        -- split; [|reflexivity]. intros _. nia.
+        -- destruct (c =? d) eqn:E2; simpl andb.
+           ++ apply Z.eqb_eq in E2. subst d. rewrite IH. lia.
+           ++ split; [discriminate|]. intros H. exfalso. apply Z.eqb_neq in E2. nia.
+Qed.
+
+Lemma lex_leb_antisym a : forall b, lex_leb a b = true -> lex_leb b a = true -> a = b.
+Proof.
+  induction a as [|c t IH]; intros [|d u] H1 H2; simpl in *; try discriminate; [reflexivity|].
+  unfold lex_leb_step in *.
+  destruct (c <? d) eqn:E1, (d <? c) eqn:E2; try lia;
+    destruct (c =? d) eqn:E3, (d =? c) eqn:E4; simpl in *; try discriminate; try lia.
+  apply Z.eqb_eq in E3. subst. f_equal. apply IH; assumption.
+Qed.
+
+Lemma enc_str_inj L a b : str_ok L a -> str_ok L b -> enc_str L a = enc_str L b -> a = b.
+Proof.
+  intros Ha Hb H. apply lex_leb_antisym; apply (enc_str_lex L); try assumption; lia.
+Qed.
+
+Lemma names_ok : Forall (str_ok 3) names.
+Proof. repeat constructor; simpl; lia. Qed.
+
+(* sorting by a KName key is sorting by the STRING NAMES[v mod 10] in Python's lexicographic order *)
+Lemma name_key_order v w :
+  let sv := nth (Z.to_nat (v mod 10)) names [] in let sw := nth (Z.to_nat (w mod 10)) names [] in
+  (name_key v <= name_key w <-> lex_leb sv sw = true) /\ (name_key v = name_key w <-> sv = sw).
+Proof.
+  intros sv sw.
+  assert (forall i, str_ok 3 (nth i names [])) as Hok.
+  { intros i. destruct (Nat.lt_ge_cases i (length names)) as [Hi|Hi].
+    - pose proof names_ok as H. rewrite Forall_forall in H. apply H. apply nth_In. exact Hi.
+    - rewrite nth_overflow by exact Hi. split; [simpl; lia|constructor]. }
+  unfold name_key. fold sv sw. split.
+  - symmetry. apply enc_str_lex; apply Hok.
+  - split; [apply enc_str_inj; apply Hok|intros ->; reflexivity].
+Qed.
